@@ -654,7 +654,10 @@ func (c *c11ctx) ruleR5() {
 
 // ruleR6: Batch.close leaves the stream at a frame boundary whenever it keeps the connection.
 func (c *c11ctx) ruleR6() {
-	const rule = "C11.R6 Batch.close drains the fetch response or closes the connection"
+	c.batchCloseDrains("C11.R6 Batch.close drains the fetch response or closes the connection")
+}
+
+func (c *c11ctx) batchCloseDrains(rule string) {
 	p, r := c.p, c.r
 	bc := p.Func("", "(*Batch).close")
 	if bc == nil {
